@@ -32,7 +32,7 @@ ASSUMPTIONS = ["no faults are injected in this check (see C20)",
                "the `lock` field is excluded: _get_instance_state deliberately externalises it as False",
                "every compared instance has a session when GET /save-state is called"]
 FAULT_KINDS = ["preemption", ]
-PROBES = ["two_stepping_requests_in_flight", "numeric_manager_name", "abandoned_stream", "second_save_load_cycle", "live_instance_diverged_from_saved", "save_state_after_eviction", "second_session_in_instance", "loaded_via_timeout", "loaded_via_load_state", "loaded_via_restart", "saved_via_save_state", "compressed_mode",
+PROBES = ["saves_of_two_instances_overlap", "session_over_two_managers", "two_stepping_requests_in_flight", "numeric_manager_name", "abandoned_stream", "second_save_load_cycle", "live_instance_diverged_from_saved", "save_state_after_eviction", "second_session_in_instance", "loaded_via_timeout", "loaded_via_load_state", "loaded_via_restart", "saved_via_save_state", "compressed_mode",
           "step_without_body", "step_with_empty_settings", "nonuniform_settings", "decimal_dt"]
 EXHAUSTIVE = {"quick": False, "thorough": False}
 
@@ -166,9 +166,19 @@ def generate(spec):
                        "model": {"template": template, "start": start, "stop": stop, "dt": dt,
                                  "managers": {"smA": {"base": {}, "alt": {"constants": {"constant": 2.0} if template == "T1" else {"drain": 1.0}}}}}},
             "instances": insts, "save_route": save_route, "load_route": load_route}
+    if len(insts) >= 2 and rng.random() < 0.5:
+        case["cross_pair"] = {"sched": {"kind": "random", "seed": rng.randrange(2**32), "p": rng.choice([0.15, 0.3, 0.5])},
+                              "uniform": copy.deepcopy(fixed) if uniform else None}
     if mgr_name != "smA":
         import json
         case = json.loads(json.dumps(case).replace('"smA"', json.dumps(mgr_name)))
+    if rng.random() < 0.25:
+        # a second scenario manager with scenarios of the SAME names but other values: sessions cover both managers
+        first = sorted(case["config"]["model"]["managers"])[0]
+        other = {"T1": {"base": {"constants": {"constant": 4.0}}, "alt": {"constants": {"constant": 0.5}}},
+                 "T2": {"base": {"constants": {"k": 3.0}}, "alt": {"constants": {"drain": 0.25}}}}[template]
+        case["config"]["model"]["managers"]["zzOther"] = other
+        case["config"]["session_managers"] = [first, "zzOther"] if rng.random() < 0.5 else ["zzOther", first]
     return case
 
 
@@ -245,7 +255,9 @@ def execute(case):
     MGR = sorted(cfg["model"]["managers"])[0]
     if MGR != "smA":
         res.probe("numeric_manager_name")
-    conc = any(o["op"] == "pair" for inst in case["instances"] for o in inst["ops"])
+    if cfg.get("session_managers"):
+        res.probe("session_over_two_managers")
+    conc = any(o["op"] == "pair" for inst in case["instances"] for o in inst["ops"]) or bool(case.get("cross_pair"))
     with ServerWorld({"model": cfg["model"], "adapter": cfg["adapter"], "threads": "auto" if conc else "serial"}, log, res) as w:
         w.boot()
         ids = []
@@ -264,7 +276,7 @@ def execute(case):
                 res.probe("second_session_in_instance")
             for n, o in enumerate(inst["ops"]):
                 if o["op"] == "begin":
-                    r = w.post("/%s/begin-session" % iid, {"scenario_managers": [MGR], "scenarios": o["scenarios"],
+                    r = w.post("/%s/begin-session" % iid, {"scenario_managers": list(cfg.get("session_managers") or [MGR]), "scenarios": o["scenarios"],
                                                            "equations": o["equations"], "settings": o["settings"]})
                 elif o["op"] == "step":
                     if o["settings"] is None:
@@ -316,6 +328,29 @@ def execute(case):
                     res.violate("C19.3-request-failed-with-adapter", {"inst": j, "op_index": n, "op": o["op"],
                                                                       "settings_is_none": o.get("settings", 0) is None,
                                                                       "status": r.status, "adapter": cfg["adapter"]})
+        if case.get("cross_pair") and len(ids) >= 2:
+            # one more step on two DIFFERENT instances, in flight together: their saves overlap inside the adapter
+            from sim.threads import Scheduler, make_policy, run_tasks
+            box = {}
+
+            def mk(j_):
+                def f():
+                    box[j_] = w.post("/%s/run-step" % ids[j_], {"settings": {}} if not case["cross_pair"].get("uniform") else {"settings": case["cross_pair"]["uniform"]})
+                return f
+            sched = Scheduler(make_policy(case["cross_pair"]["sched"]), PAIR_TRACE[2:], log=None)
+            with sched:
+                rr_ = run_tasks(sched, [mk(0), mk(1)])
+            for x_ in rr_:
+                if x_ and x_[0] == "exc":
+                    raise x_[1]
+            res.probe("saves_of_two_instances_overlap")
+            if sched.switches > 2:
+                res.fault("preemption", sched.switches)
+            log.add("cross_pair", sched.interleaving_hash(), box[0].status, box[1].status)
+            for j_ in (0, 1):
+                if box[j_].status != 200:
+                    res.violate("C19.3-request-failed-with-adapter", {"inst": j_, "op": "run-step (two instances in flight together)",
+                                                                      "status": box[j_].status, "adapter": cfg["adapter"]})
         compared = [0]
 
         def cycle(cno):
@@ -454,6 +489,10 @@ def shrink(case):
         c = copy.deepcopy(case)
         c["more"] = None
         yield c
+    if case.get("cross_pair"):
+        c = copy.deepcopy(case)
+        c.pop("cross_pair")
+        yield c
     if case.get("diverge"):
         c = copy.deepcopy(case)
         c["diverge"] = None
@@ -478,7 +517,8 @@ def shrink(case):
 
 
 def _all_ops(case):
-    return _flat([o for inst in case["instances"] for o in inst["ops"]]) + list(case.get("more") or [])
+    return _flat([o for inst in case["instances"] for o in inst["ops"]]) + list(case.get("more") or []) \
+        + ([{"op": "step", "settings": case["cross_pair"].get("uniform") or {}}] if case.get("cross_pair") else [])
 
 
 def trigger(case, v, f):
@@ -488,7 +528,9 @@ def trigger(case, v, f):
     if t == "compressed_and_grid_not_1_1":
         return comp and (m["start"] != 1.0 or m["dt"] != 1.0)
     if t == "compressed_and_nonuniform_settings":
-        more = case.get("more") or []
+        more = list(case.get("more") or [])
+        if case.get("cross_pair"):
+            more.append({"op": "step", "settings": case["cross_pair"].get("uniform") or {}})
         return comp and any(len(_settings_shapes(i["ops"] + more) - set()) > 1 or "EMPTY" in _settings_shapes(i["ops"] + more) or "NONE" in _settings_shapes(i["ops"] + more)
                             for i in case["instances"])
     if t == "compressed_and_step_without_body":
